@@ -503,7 +503,7 @@ func c18Eval(res *core.Result, b *c18Base, m c18Mut, env *core.Env) {
 	runtime.ReadMemStats(&ms1)
 	res.Count("walks", 1)
 	if pi != nil {
-		fail("panic", pi.Top+":"+pi.Class, "panic while opening/walking a %s image with %s corrupted (offset %d, width %d, value %#x%s): %s", b.name, m.Region, m.Off, m.Width, m.Value, noteOf(m), pi.Msg)
+		fail("panic", pi.Top+":"+pi.Class, "panic while opening/walking a %s image with %s corrupted (offset %d, width %d, value %#x%s): %s; stack: %s", b.name, m.Region, m.Off, m.Width, m.Value, noteOf(m), pi.Msg, repoFrames(pi.Stack, 6))
 		return
 	}
 	if werr != nil {
@@ -643,4 +643,29 @@ func init() {
 		},
 		NeedMarks: []string{"base fat12", "base fat32", "base ext4-lib0", "base ext4-mke2fs", "base iso-rr", "base squashfs-none"},
 	})
+}
+
+// repoFrames returns the first n go-diskfs frames ("func (file:line)") of a panic stack.
+func repoFrames(stack string, n int) string {
+	var out []string
+	lines := strings.Split(stack, "\n")
+	for i := 0; i+1 < len(lines) && len(out) < n; i++ {
+		l := lines[i]
+		if !strings.HasPrefix(l, "github.com/diskfs/go-diskfs/") {
+			continue
+		}
+		fn := strings.TrimPrefix(l, "github.com/diskfs/go-diskfs/")
+		if j := strings.LastIndex(fn, "("); j > 0 {
+			fn = fn[:j]
+		}
+		loc := strings.TrimSpace(lines[i+1])
+		if j := strings.Index(loc, " +0x"); j > 0 {
+			loc = loc[:j]
+		}
+		if j := strings.LastIndex(loc, "/"); j >= 0 {
+			loc = loc[j+1:]
+		}
+		out = append(out, fn+" ("+loc+")")
+	}
+	return strings.Join(out, " <- ")
 }
